@@ -414,81 +414,57 @@ Variable lower_c : N -> str.
 
 Notation names := (map b_name py_keyboards).
 Notation model := (detect_keyboard_walk isalpha isdigit lower_c py_kbs kb_false_positive_words 4).
+Notation first := (py_detect_first_keyboard_walk isalpha isdigit lower_c).
 Notation py := (py_detect_keyboard_walk isalpha isdigit lower_c).
-Notation R := (list section * list str * list str)%type.
+Notation R := (list section * list str * list str * option str)%type.
 Notation St := (str * list section * list str * list str * list (str * (Z * Z)) * list (str * (Z * Z * Z * Z)))%type.
 
-Lemma model_unfold fuel pw :
-  model fuel pw =
+(* the first walk of a password in the model: its sections, what was found, and what is
+   left to parse (None: the password is finished) *)
+Definition kw_first (pw : str) : option (list section * list str * option str) :=
   match kw_loop isalpha isdigit lower_c py_kbs kb_false_positive_words 4 pw 0 (map (fun _ => None) py_kbs) [] [] with
   | KErr => None
   | KFound index combo =>
-      let pre := if len combo =? index then [] else [(slice pw 0 (index - len combo), None)] in
-      let k := (combo, Some (LK (len combo))) in
-      if index =? len pw then Some (pre ++ [k], [combo])
-      else match fuel with
-           | O => None
-           | S f =>
-               match model f (sfrom pw index) with
-               | None => None
-               | Some (secs, found) => Some (pre ++ k :: secs, combo :: found)
-               end
-           end
+      Some ((if len combo =? index then [] else [(slice pw 0 (index - len combo), None)]) ++
+            [(combo, Some (LK (len combo)))], [combo], Some (sfrom pw index))
   | KEnd combo =>
       if 4 <=? len combo then
         match interesting isalpha isdigit lower_c kb_false_positive_words combo with
         | None => None
         | Some true =>
-            let pre := if len combo =? len pw then [] else [(slice pw 0 (len pw - len combo), None)] in
-            Some (pre ++ [(combo, Some (LK (len combo)))], [combo])
-        | Some false => Some ([(pw, None)], [])
+            Some ((if len combo =? len pw then [] else [(slice pw 0 (len pw - len combo), None)]) ++
+                  [(combo, Some (LK (len combo)))], [combo], None)
+        | Some false => Some ([(pw, None)], [], None)
         end
-      else Some ([(pw, None)], [])
-  end.
-Proof. destruct fuel; reflexivity. Qed.
-
-(* a statement that ends the function with the model's answer a *)
-Definition ends_with {L St0 : Type} (c : ctl R L St0) (a : option (list section * list str)) : Prop :=
-  match c with
-  | Return x => a = Some (fst (fst x), snd (fst x))
-  | Raise => a = None
-  | _ => False
+      else Some ([(pw, None)], [], None)
   end.
 
 (* the loop `for index, value in enumerate(password)` against Detect.kw_loop *)
-Definition loop_rel (found_ans : Z -> str -> option (list section * list str))
-           (c : ctl R Empty_set St) (m : kw_outcome) : Prop :=
+Definition loop_rel (pw : str) (c : ctl R Empty_set St) (m : kw_outcome) : Prop :=
   match m with
   | KErr => c = Raise
-  | KFound index combo => ends_with c (found_ans index combo)
+  | KFound index combo =>
+      index < len pw /\
+      exists dk', c = Return ((if len combo =? index then [] else [(slice pw 0 (index - len combo), None)]) ++
+                             [(combo, Some (LK (len combo)))], [combo], dk', Some (sfrom pw index))
   | KEnd combo => exists dk' pp kk, c = Next (combo, [], [], dk', pp, kk)
   end.
 
-Theorem py_detect_keyboard_walk_eq : forall fuel pw, kw_view (py (S fuel) pw 4) = model fuel pw.
+(* _detect_first_keyboard_walk: what it returns, up to the detected keyboards; and a walk
+   found inside the loop ends before the end of the password *)
+Theorem py_detect_first_keyboard_walk_eq pw :
+  option_map (fun x => (fst (fst (fst x)), snd (fst (fst x)), snd x)) (first pw 4) = kw_first pw /\
+  (forall index combo,
+     kw_loop isalpha isdigit lower_c py_kbs kb_false_positive_words 4 pw 0 (map (fun _ => None) py_kbs) [] [] =
+     KFound index combo -> index < len pw).
 Proof.
-  induction fuel as [fuel IHf] using lt_wf_ind. intros pw.
-  (* the recursive call, as the model makes it *)
-  set (recm := fun pw' => match fuel with O => None | S f => model f pw' end).
-  assert (Hrec : forall pw', kw_view (py fuel pw' 4) = recm pw').
-  { intros pw'. unfold recm. destruct fuel as [|f]; [reflexivity|]. apply IHf. lia. }
-  rewrite model_unfold. cbn [py_detect_keyboard_walk]. cbv zeta.
+  unfold py_detect_first_keyboard_walk, kw_first. cbv zeta.
   cbn [append app]. fold py_keyboards. unfold for_enum.
   match goal with |- context [for_from 0 pw _ ?b] => set (body := b) end.
-  (* the model's answer when a walk that ends before position index is found *)
-  set (found_ans := fun (index : Z) (combo : str) =>
-         if index =? len pw
-         then Some ((if len combo =? index then [] else [(slice pw 0 (index - len combo), None)]) ++
-                    [(combo, Some (LK (len combo)))], [combo])
-         else match recm (sfrom pw index) with
-              | Some (secs, found) =>
-                  Some ((if len combo =? index then [] else [(slice pw 0 (index - len combo), None)]) ++
-                        (combo, Some (LK (len combo))) :: secs, combo :: found)
-              | None => None
-              end).
   assert (L : forall rest done pos past rcombo krl dk (kr : list (str * (Z * Z * Z * Z))),
     pw = done ++ rest -> pos = len done -> length past = length names -> (length krl <= length names)%nat ->
     d_keys kr = sel names krl ->
-    loop_rel found_ans (for_from (R := R) (L' := Empty_set) pos rest (rev rcombo, [], [], dk, dict_of names past, kr) body)
+    loop_rel pw (for_from (R := R) (L' := Empty_set) pos rest (rev rcombo, [], [], dk, dict_of names past, kr) body)
              (kw_loop isalpha isdigit lower_c py_kbs kb_false_positive_words 4 rest pos past rcombo krl)).
   { induction rest as [|value rest IH]; intros done pos past rcombo krl dk kr Hpw Hpos Hpast Hkrl Hkr;
       cbn [kw_loop for_from]; [cbn [loop_rel]; now eexists _, _, _|].
@@ -541,7 +517,7 @@ Proof.
       change (rev rcombo ++ [value]) with (rev (value :: rcombo)).
       exact (IH (done ++ [value]) (pos + 1) pl (value :: rcombo) krl' dk' kr' Hpw' Hpos' Hpl Hlen_krl' Hkr').
     - (* the run ends here *)
-      assert (Hnext : loop_rel found_ans
+      assert (Hnext : loop_rel pw
                 (for_from (R := R) (L' := Empty_set) (pos + 1) rest ([value], [], [], dk', dict_of names pl, kr') body)
                 (kw_loop isalpha isdigit lower_c py_kbs kb_false_positive_words 4 rest (pos + 1) pl [value] krl'))
         by exact (IH (done ++ [value]) (pos + 1) pl [value] krl' dk' kr' Hpw' Hpos' Hpl Hlen_krl' Hkr').
@@ -549,47 +525,149 @@ Proof.
       rewrite py_interesting_keyboard_eq.
       destruct (interesting isalpha isdigit lower_c kb_false_positive_words (rev rcombo)) as [[|]|]; cbn [call bind];
         [|exact Hnext|reflexivity].
-      (* an interesting walk: the rest of the password is parsed by the recursive call *)
-      assert (Hne : (pos =? len pw) = false).
-      { apply Z.eqb_neq. rewrite Hpw, len_app, len_cons, Hpos. pose proof (len_nonneg rest). lia. }
-      rewrite Hne. cbn [negb]. unfold loop_rel, found_ans. rewrite Hne.
-      pose proof (Hrec (sfrom pw pos)) as Hr.
-      destruct (py fuel (sfrom pw pos) 4) as [[[ts tf] tdk]|]; cbn [kw_view option_map fst snd] in Hr; rewrite <- Hr;
-        cbn [call]; rewrite ?len_rev; [|destruct (len rcombo =? pos); reflexivity].
-      destruct (len rcombo =? pos); cbn [negb bind append extend app ends_with fst snd];
-        (destruct tf; cbn [nonempty bind extend app ends_with fst snd]; rewrite <- ?app_assoc; reflexivity). }
+      (* an interesting walk: what remains is handed back to the caller *)
+      assert (Hlt : pos < len pw).
+      { rewrite Hpw, len_app, len_cons, Hpos. pose proof (len_nonneg rest). lia. }
+      assert (Hne : (pos =? len pw) = false) by (apply Z.eqb_neq; lia).
+      rewrite Hne. cbn [negb]. unfold loop_rel. rewrite ?len_rev. split; [exact Hlt|].
+      destruct (len rcombo =? pos); cbn [negb bind append app]; now eexists. }
   pose proof (L pw [] 0 (map (fun _ => None) py_kbs) [] [] [] [] eq_refl eq_refl) as HL.
   rewrite dict_of_nones in HL. cbn [rev] in HL.
   specialize (HL ltac:(unfold py_kbs; now rewrite !map_length) ltac:(cbn; lia) eq_refl).
   match goal with |- context [@for_from ?X0 ?R0 ?L0 ?L1 0 pw ?st body] =>
     set (LOOP := @for_from X0 R0 L0 L1 0 pw st body);
-    change (loop_rel found_ans LOOP
+    change (loop_rel pw LOOP
               (kw_loop isalpha isdigit lower_c py_kbs kb_false_positive_words 4 pw 0 (map (fun _ => None) py_kbs) [] [])) in HL
   end.
   unfold loop_rel in HL.
   destruct (kw_loop isalpha isdigit lower_c py_kbs kb_false_positive_words 4 pw 0 (map (fun _ => None) py_kbs) [] [])
     as [|index combo|combo].
-  - now rewrite HL.
-  - assert (Ea : found_ans index combo =
-                 (if index =? len pw
-                  then Some ((if len combo =? index then [] else [(slice pw 0 (index - len combo), None)]) ++
-                             [(combo, Some (LK (len combo)))], [combo])
-                  else match fuel with
-                       | O => None
-                       | S f => match model f (sfrom pw index) with
-                                | Some (secs, found) =>
-                                    Some ((if len combo =? index then [] else [(slice pw 0 (index - len combo), None)]) ++
-                                          (combo, Some (LK (len combo))) :: secs, combo :: found)
-                                | None => None
-                                end
-                       end)).
-    { unfold found_ans, recm. destruct (index =? len pw); [reflexivity|]. now destruct fuel. }
-    etransitivity; [|exact Ea]. revert HL. destruct LOOP as [| | |x|]; cbn [ends_with]; try tauto; intros ->; reflexivity.
-  - destruct HL as (dk' & pp & kk & ->). cbn [bind]. rewrite ?py_interesting_keyboard_eq.
-    destruct (4 <=? len combo); cbn [bind run kw_view option_map fst snd append app]; [|reflexivity].
+  - rewrite HL. split; [reflexivity|discriminate].
+  - destruct HL as (Hlt & dk' & ->). split; [reflexivity|]. intros ? ? E. injection E as <- _. exact Hlt.
+  - destruct HL as (dk' & pp & kk & ->). split; [|discriminate]. cbn [bind]. rewrite ?py_interesting_keyboard_eq.
+    destruct (4 <=? len combo); cbn [bind run option_map fst snd append app]; [|reflexivity].
     destruct (interesting isalpha isdigit lower_c kb_false_positive_words combo) as [[|]|];
-      cbn [call bind run kw_view option_map fst snd append app]; [|reflexivity|reflexivity].
+      cbn [call bind run option_map fst snd append app]; [|reflexivity|reflexivity].
     destruct (len combo =? len pw); reflexivity.
 Qed.
+
+(* the model's recursion, one walk at a time *)
+Lemma model_unfold fuel pw :
+  model fuel pw =
+  match kw_first pw with
+  | None => None
+  | Some (s, f, None) => Some (s, f)
+  | Some (s, f, Some rest) =>
+      match fuel with
+      | O => None
+      | S n => match model n rest with
+               | None => None
+               | Some (secs, found) => Some (s ++ secs, f ++ found)
+               end
+      end
+  end.
+Proof.
+  destruct (py_detect_first_keyboard_walk_eq pw) as (_ & Hlt). unfold kw_first.
+  destruct fuel; cbn [detect_keyboard_walk]; cbv zeta;
+    (destruct (kw_loop isalpha isdigit lower_c py_kbs kb_false_positive_words 4 pw 0 (map (fun _ => None) py_kbs) [] [])
+       as [|index combo|combo];
+     [ reflexivity
+     | replace (index =? len pw) with false by (symmetry; apply Z.eqb_neq; specialize (Hlt index combo eq_refl); lia);
+       try reflexivity
+     | destruct (4 <=? len combo); [|reflexivity];
+       destruct (interesting isalpha isdigit lower_c kb_false_positive_words combo) as [[|]|]; reflexivity ]).
+  destruct (detect_keyboard_walk isalpha isdigit lower_c py_kbs kb_false_positive_words 4 fuel (sfrom pw index)) as [[secs found]|];
+    [|reflexivity]. now rewrite <- app_assoc.
+Qed.
+
+(* the model never fails when its fuel is the length of the password *)
+Lemma model_total pw : exists r, model (length pw) pw = Some r.
+Proof.
+  destruct pw as [|c pw].
+  - now eexists.
+  - destruct (kw_ok isalpha isdigit lower_c py_kbs kb_false_positive_words 4 [] [] ltac:(lia) (length (c :: pw)) (c :: pw)
+                (Nat.le_refl _) ltac:(discriminate)) as (sl & f & E & _).
+    rewrite E. now eexists.
+Qed.
+
+Lemma lpop_snoc {X} (l : list X) x : lpop (l ++ [x]) = Some (l, x).
+Proof. unfold lpop. rewrite rev_app_distr. cbn [rev app]. now rewrite rev_involutive. Qed.
+
+Lemma nonempty_snoc {X} (l : list X) : l <> [] -> exists l' x, l = l' ++ [x].
+Proof. intros H. destruct (exists_last H) as (l' & x & ->). eauto. Qed.
+
+(* the loop `while detected_per_part:` that folds the detected keyboards: it ends with the
+   list empty whenever the fuel is at least the length of the list *)
+Lemma fold_loop_total {R0 L' : Type} (cond : list str * list (list str) -> bool)
+      (body : list str * list (list str) -> ctl R0 (list str * list (list str)) (list str * list (list str))) :
+  (forall dk l, cond (dk, l) = nonempty l) ->
+  (forall dk l, body (dk, l) = call (lpop l) (fun '(l', e) => Next (filter (fun key => mem_str key e) dk, l'))) ->
+  forall fuel l dk, (length l <= fuel)%nat ->
+  exists dk', while_ (L' := L') fuel (dk, l) cond body = Next (dk', []).
+Proof.
+  intros Hc Hb. induction fuel as [|f IH]; intros l dk Hl.
+  - destruct l; [|cbn in Hl; lia]. cbn [while_]. rewrite Hc. now eexists.
+  - cbn [while_]. rewrite Hc. destruct l as [|a l0]; [now eexists|]. cbn [nonempty].
+    destruct (nonempty_snoc (a :: l0) ltac:(discriminate)) as (l' & x & E). rewrite E in *.
+    rewrite Hb, lpop_snoc. cbn [call]. apply IH. rewrite app_length in Hl. cbn in Hl. lia.
+Qed.
+
+Notation Wst := (Z * list section * list str * list (list str) * option str)%type.
+
+Theorem py_detect_keyboard_walk_eq_total : forall pw,
+  exists dk, py pw 4 = Some (fst (match model (length pw) pw with Some r => r | None => ([], []) end),
+                             snd (match model (length pw) pw with Some r => r | None => ([], []) end), dk) /\
+             model (length pw) pw <> None.
+Proof.
+  intros pw. destruct (model_total pw) as (r & Er). rewrite Er. cbn [fst snd].
+  unfold py_detect_keyboard_walk. cbv zeta.
+  match goal with |- context [while_ _ (4, _, _, _, _) ?c ?b] => set (wcond := c); set (wbody := b) end.
+  (* the loop over the walks, for every number of walks the model's fuel allows *)
+  assert (W : forall n pw0 sl fl dpp r0, model n pw0 = Some r0 -> forall fuel, (n < fuel)%nat ->
+    exists dpp', while_ (R := list section * list str * list str) (L' := Empty_set) fuel (4, sl, fl, dpp, Some pw0) wcond wbody =
+                 Next (4, sl ++ fst r0, fl ++ snd r0, dpp', None) /\
+                 (length dpp < length dpp' <= length dpp + S n)%nat).
+  { clear. induction n as [|n IH]; intros pw0 sl fl dpp r0 Em fuel Hf; (destruct fuel as [|fu]; [lia|]);
+      rewrite model_unfold in Em; cbn [while_]; unfold wcond at 1; cbn [is_none negb]; unfold wbody at 1; cbn [call];
+      destruct (py_detect_first_keyboard_walk_eq pw0) as (Ef & _);
+      destruct (kw_first pw0) as [[[s f] rem]|]; try discriminate;
+      destruct (first pw0 4) as [[[[s' f'] dk] rem']|]; try discriminate;
+      cbn [option_map fst snd] in Ef; injection Ef as -> -> ->; cbn [call]; unfold extend, append.
+    - destruct rem as [rest|]; [discriminate|]. injection Em as <-. cbn [fst snd].
+      exists (dpp ++ [dk]). split; [|rewrite app_length; cbn; lia].
+      destruct fu; cbn [while_]; reflexivity.
+    - destruct rem as [rest|].
+      + destruct (model n rest) as [[secs found]|] eqn:En; [|discriminate]. injection Em as <-. cbn [fst snd].
+        destruct (IH rest (sl ++ s) (fl ++ f) (dpp ++ [dk]) (secs, found) En fu ltac:(lia)) as (dpp' & -> & Hl).
+        exists dpp'. cbn [fst snd]. rewrite <- !app_assoc. split; [reflexivity|]. rewrite app_length in Hl. cbn in Hl. lia.
+      + injection Em as <-. cbn [fst snd]. exists (dpp ++ [dk]). split; [|rewrite app_length; cbn; lia].
+        destruct fu; cbn [while_]; reflexivity. }
+  destruct (W (length pw) pw [] [] [] r Er (S (length pw)) ltac:(lia)) as (dpp' & Ew & Hl).
+  cbn [app] in Ew.
+  match goal with |- context [@while_ ?R0 ?L0 ?L1 ?f ?st wcond wbody] =>
+    replace (@while_ R0 L0 L1 f st wcond wbody) with (@Next R0 L1 L0 (4, fst r, snd r, dpp', @None str))
+      by (symmetry; exact Ew) end.
+  cbn [bind].
+  destruct (nonempty_snoc dpp' ltac:(destruct dpp'; [cbn in Hl; lia|discriminate])) as (l' & x & ->).
+  rewrite lpop_snoc. cbn [call].
+  match goal with |- context [@while_ ?R0 ?L0 ?L1 ?f ?st ?c ?b] =>
+    destruct (@fold_loop_total R0 L1 c b ltac:(reflexivity) ltac:(reflexivity) f l' x) as (dk' & Ed);
+    [|replace (@while_ R0 L0 L1 f st c b) with (@Next R0 L1 L0 (dk', @nil (list str))) by (symmetry; exact Ed)] end.
+  - rewrite app_length in Hl. cbn in Hl. lia.
+  - cbn [bind run]. exists dk'. split; [reflexivity|discriminate].
+Qed.
+
+(* detect_keyboard_walk with the default min_keyboard_run: the model's answer (with the
+   fuel the model needs), whatever the length of the password *)
+Theorem py_detect_keyboard_walk_eq : forall pw, kw_view (py pw 4) = model (length pw) pw.
+Proof.
+  intros pw. destruct (py_detect_keyboard_walk_eq_total pw) as (dk & -> & Hm).
+  destruct (model (length pw) pw) as [[sl f]|]; [reflexivity|congruence].
+Qed.
+
+(* R24: the translated function never raises and its loops never run out of the fuel the
+   translation gives them (one more than the length of the password), for EVERY password *)
+Theorem py_detect_keyboard_walk_total : forall pw, py pw 4 <> None.
+Proof. intros pw. destruct (py_detect_keyboard_walk_eq_total pw) as (dk & -> & _). discriminate. Qed.
 
 End Walk.
